@@ -257,6 +257,11 @@ func (bqp *binaryQuantizedPoint) Id() uint64 {
 }
 
 func (bqp *binaryQuantizedPoint) IdFromKey(key []byte) (uint64, bool) {
+	// A quantised point is written under the 'q' suffix only (see WriteTo),
+	// so both suffixes identify a stored point when scanning the bucket.
+	if id, ok := conversion.NodeIdFromKey(key, 'q'); ok {
+		return id, true
+	}
 	return conversion.NodeIdFromKey(key, 'v')
 }
 
